@@ -142,6 +142,30 @@ func cmdFunc(args []string) int {
 			t0 := time.Now()
 			fc := u.verifyFunction(fn, c)
 			gen := time.Since(t0)
+			if os.Getenv("FVC_GENONLY") != "" {
+				total := 0
+				byKind := map[string]int{}
+				big := ""
+				bigOb := ""
+				for _, ob := range fc.obs {
+					n := len(ob.Goal.S)
+					for _, p := range ob.PC {
+						n += len(p.S)
+						if len(p.S) > len(big) {
+							big = p.S
+							bigOb = ob.Name
+						}
+					}
+					total += n
+					byKind[ob.Kind]++
+				}
+				if len(big) > 600 {
+					big = big[:600]
+				}
+				fmt.Printf("largest PC term (in %s): %s\n", bigOb, big)
+				fmt.Printf("== %s: %d obligations, %d forks, gen %.2fs, total smt bytes %d, kinds %v, errs %v\n", fc.name, len(fc.obs), fc.paths, gen.Seconds(), total, byKind, fc.errs)
+				continue
+			}
 			s := newSolver(*tier)
 			s.solveAll(fc.obs)
 			fmt.Printf("== %s: %d obligations, %d forks, gen %.2fs\n", fc.name, len(fc.obs), fc.paths, gen.Seconds())
